@@ -138,7 +138,7 @@ def showFault : Fault → String
   | .sigPayloadNone => "sig-payload-none"
   | .aliasMissing => "alias-missing"
 
-def sorter : Sorter Name Name := sortNow ipnsort
+def sorter : Sorter Name Name := sortMatches
 
 /-! ### speculation: everything the model could still ask for this input (never trusted, only
     used to batch oracle queries; a wrong guess costs one more round) -/
@@ -181,7 +181,11 @@ def speculate (o : Oracle) (b : Bytes) (s : Settings) : List Query :=
           acc.chunks.flatMap (fun t =>
             (match W.mess t s.thr with | .error (.need q) => [q] | _ => []) ++
             (if e = T.ascii then [] else
-              match W.coh t s.langThr langs with | .error (.need q) => [q] | _ => [])))
+              match W.coh t s.langThr langs with | .error (.need q) => [q] | _ => [])) ++
+          (if e = T.ascii then [] else
+            match cohAll W s.langThr langs acc.chunks with
+            | .ok cdl => (match W.merge cdl with | .error (.need q) => [q] | _ => [])
+            | .error _ => []))
   | _, _ => []
 
 /-! ### requests -/
